@@ -121,6 +121,10 @@ def shard_job(pid, binp, test, idx, seed, checks, tier, known_ids, workroot, lim
         procs = test["gomaxprocs"]
         env["GOMAXPROCS"] = str(procs[idx % len(procs)])
     cmd = [binp, "-test.run", "^%s$" % test["name"], "-test.timeout", "0", "-test.count", "1"]
+    if test.get("mode") == "fuzz":
+        # native coverage-guided fuzzing: wall-clock budget, budget end = pass for this part
+        cmd = [binp, "-test.run", "^$", "-test.fuzz", "^%s$" % test["name"], "-test.fuzztime", "%ds" % checks,
+               "-test.fuzzcachedir", os.path.join(wd, "fuzzcache"), "-test.timeout", "0"]
     if test.get("mode", "rapid") == "rapid":
         cmd += ["-rapid.checks=%d" % checks, "-rapid.seed=%d" % seed, "-rapid.nofailfile",
                 "-rapid.shrinktime=%s" % test.get("shrinktime", "20s")]
